@@ -1,5 +1,6 @@
 """C01 — output equals the R2RML/RML generation rules for every mapping and table."""
 import os
+import re
 
 import coregen as cg
 import corecases as cc
@@ -18,7 +19,9 @@ THEOREMS = [{'name': f'Props.C01.{n}', 'module': M} for n in [
 RULE = ('abstract documents of the core fragment (1-3 triples maps, 0-3 predicate-object maps with 1-2 predicate/object/graph maps, '
         'constant/template/reference term maps, IRI/blank-node/literal term types, language tags, datatypes, classes, escaped braces) x '
         'CSV tables of 0-5 rows over a Unicode alphabet with NA tokens; each case is evaluated by the real engine, by Model.evalAll on the '
-        'REAL rule table (I7), by Model.normalizeDoc vs the real rule table (I6) and by Spec.evalDoc (oracle). '
+        'REAL rule table (I7), by Model.normalizeDoc vs the real rule table (I6) and by Spec.evalDoc (oracle); 40% of the eligible cases are run a second time with '
+        'every table loaded into SQLite (plus two unreferenced columns holding SQL NULLs) behind rr:sqlQuery / rr:tableName logical tables, '
+        'against the same oracle. '
         'non-trivial = at least one data-dependent term map and one surviving row; distinct = hash of (document, tables).')
 TRUSTED_BASE = [
     'modelled, not verified: rdflib Turtle parser and SPARQL engine behind RML_PARSING_QUERY (the normaliser model states what they must deliver; '
@@ -89,6 +92,60 @@ def one_case(ctx, drv, case, fmt):
             extra = [x for x in res if x not in sp][:3]
             ctx.violation(f'result differs from the generation rules: missing {missing!r}, extra {extra!r}', inp,
                           finding=triage(case, drv, fmt, sp, res))
+        elif ctx.rng.random() < 0.4:
+            sql_variant(ctx, drv, case, fmt, sp, ctx.rng)
+
+
+SIMPLE_ID = re.compile(r'^[A-Za-z_][A-Za-z0-9_]*$')
+
+
+def sql_variant(ctx, drv, case, fmt, sp, rng, fixed_kinds=None):
+    """The same document over a relational source: every table is loaded into a SQLite database (TEXT columns, plus two
+    columns no rule references that hold SQL NULLs in some rows) and every logical source becomes `rr:sqlQuery` or
+    `rr:tableName`.  The generation rules prescribe the same statements (`sp`); only the oracle is applied."""
+    import sqlite3
+    if any(not SIMPLE_ID.match(c) for cols in case.columns.values() for c in cols):
+        return
+    if any('\x00' in v for rows in case.tables.values() for r in rows for v in r.values()):
+        return
+    db = os.path.join(case.dir, 'v.db')
+    con = sqlite3.connect(db)
+    names = {}
+    for k, (p, rows) in enumerate(case.tables.items()):
+        names[p] = f't{k}'
+        cols = case.columns[p]
+        con.execute(f'CREATE TABLE t{k} (' + ', '.join(f'"{c}" TEXT' for c in cols) + ', "zz_extra" TEXT, "zz_num" INTEGER)')
+        for i, r in enumerate(rows):
+            con.execute(f'INSERT INTO t{k} VALUES (' + ','.join('?' for _ in range(len(cols) + 2)) + ')',
+                        [r[c] for c in cols] + [None if i % 2 == 0 else 'x', None if i % 3 != 1 else 7])
+    con.commit()
+    con.close()
+    text = cg.render_doc(case.doc)
+    kinds = []
+    for p, t in names.items():
+        src = f'rml:logicalSource [ rml:source {cg.turtle_str(p)} ; rml:referenceFormulation ql:CSV ] ;'
+        while src in text:
+            kind = fixed_kinds[len(kinds)] if fixed_kinds else rng.choice(['query', 'query', 'table'])
+            kinds.append(kind)
+            text = text.replace(src, f'rr:logicalTable [ rr:sqlQuery "SELECT * FROM {t}" ] ;' if kind == 'query'
+                                else f'rr:logicalTable [ rr:tableName "{t}" ] ;', 1)
+    mp = os.path.join(case.dir, 'm_sql.ttl')
+    with open(mp, 'w', encoding='utf-8') as f:
+        f.write(text)
+    kind, res = cg.run_engine(cg.config_text(mp, fmt=fmt, extra='') + f'db_url=sqlite:///{db}\n')
+    inp = {'doc': case.doc, 'tables': {os.path.basename(p): r for p, r in case.tables.items()}, 'fmt': fmt,
+           'columns': {os.path.basename(p): c for p, c in case.columns.items()}, 'sql': kinds}
+    if fixed_kinds is not None:
+        return kind != 'ok' or res != sp
+    ctx.case(case.key() + [fmt, 'sql', kinds], nontrivial=(kind == 'ok' and bool(res)), kind=f'e2e sqlite {fmt}')
+    ctx.traces_validated += 1
+    if kind != 'ok':
+        ctx.violation(f'materialization of a legal mapping over SQLite failed: {res}', inp, finding=triage(case))
+    elif res != sp:
+        missing = [x for x in sp if x not in res][:3]
+        extra = [x for x in res if x not in sp][:3]
+        ctx.violation(f'SQLite rendering of the source: result differs from the generation rules: missing {missing!r}, extra {extra!r}',
+                      inp, finding=triage(case, drv, fmt, sp, res))
 
 
 def run(ctx, lean, findings):
@@ -136,11 +193,14 @@ def build_case(d, inp):
 def replay_input(ctx, drv, inp, d):
     """True iff the engine's result still differs from the generation rules (or the engine fails)"""
     case = build_case(d, inp)
-    kind, res = cc.engine(case, fmt=inp.get('fmt', 'N-TRIPLES'))
+    fmt = inp.get('fmt', 'N-TRIPLES')
+    drv = drv or ctx.get_driver()
+    if inp.get('sql'):
+        return bool(sql_variant(ctx, drv, case, fmt, cc.spec(drv, case, fmt=fmt), None, fixed_kinds=inp['sql']))
+    kind, res = cc.engine(case, fmt=fmt)
     if kind != 'ok':
         return True
-    drv = drv or ctx.get_driver()
-    return cc.spec(drv, case, fmt=inp.get('fmt', 'N-TRIPLES')) != res
+    return cc.spec(drv, case, fmt=fmt) != res
 
 
 def replay(ctx, data):
